@@ -828,6 +828,20 @@ func runSrv(prop string, r *common.Rand, tier string, o *common.Out, replay stri
 				vreqs[0].mode = "veto"
 				srvRunCase(o, fmt.Sprintf("poolv%d%s", i, style), 1, vreqs, []int{-1, -2, -3, 2, 1, -4, 3}, false, false)
 				o.Count("pool-reuse-schedule")
+				// the same after a request whose handler fails or panics - two-way and one-way: whatever path returns the
+				// objects of a failed call to their pools, each goes back once
+				for fi, first := range []struct {
+					mode string
+					ow   bool
+				}{{"err", false}, {"err", true}, {"panic", false}, {"panic", true}} {
+					if (i+fi)%2 != 0 {
+						continue
+					}
+					freqs := []sreqCase{mk(1, 2, 3+i, false, first.ow), mk(2, 4+i, 5, false, false), mk(3, 6, 7+i, false, false), mk(4, 2+i, 9, true, false)}
+					freqs[0].mode, freqs[0].text = first.mode, 1
+					srvRunCase(o, fmt.Sprintf("poolf%d%s%d", i, style, fi), 1, freqs, []int{-1, 0, -2, -3, 2, 1, -4, 3}, false, false)
+					o.Count("pool-reuse-schedule")
+				}
 			}
 		}
 		runtime.GOMAXPROCS(prev)
